@@ -1,100 +1,54 @@
+// dev tool: runs every case of the C18 families in-process and prints the first cases of every
+// violation class with full detail.
 package main
 
 import (
-	"bytes"
 	"fmt"
 	"os"
+	"strconv"
+	"strings"
+	"time"
 
-	"github.com/tdewolff/canvas"
-	"github.com/tdewolff/canvas/renderers/pdf"
-	"golang.org/x/image/font/sfnt"
-
-	"verif/internal/pdfread"
+	"verif/internal/fw"
+	"verif/internal/props/c18"
 )
 
 func main() {
-	files := []string{"DejaVuSerif.ttf", "EBGaramond12-Regular.otf", "Dynalight-Regular.otf"}
-	for _, fn := range files {
-		for _, subset := range []bool{true, false} {
-			b, _ := os.ReadFile("/repo/resources/" + fn)
-			f, err := canvas.LoadFont(b, 0, canvas.FontRegular)
-			if err != nil {
-				panic(err)
-			}
-			buf := &bytes.Buffer{}
-			p := pdf.New(buf, 100, 80, &pdf.Options{Compress: false, SubsetFonts: subset})
-			face := f.Face(12, canvas.Black)
-			var t *canvas.Text
-			switch os.Args[2] {
-			case "line":
-				t = canvas.NewTextLine(face, os.Args[1], canvas.Left)
-			case "box":
-				t = canvas.NewTextBox(face, os.Args[1], 6, 0, canvas.Justify, canvas.Top, 0, 0)
-			case "vnat", "vup":
-				rt := canvas.NewRichText(face)
-				rt.SetWritingMode(canvas.VerticalRL)
-				if os.Args[2] == "vup" {
-					rt.SetTextOrientation(canvas.Upright)
-				}
-				rt.WriteString(os.Args[1])
-				t = rt.ToText(0, 0, canvas.Left, canvas.Top, 0, 0)
-			}
-			t.WalkSpans(func(x, y float64, s canvas.TextSpan) {
-				fmt.Printf("span x=%v y=%v w=%v text=%q dir=%v rot=%v\n", x, y, s.Width, s.Text, s.Direction, s.Rotation)
-				for _, g := range s.Glyphs {
-					fmt.Printf("   %v vert=%v\n", g, g.Vertical)
-				}
-			})
-			p.RenderText(t, canvas.Identity.Translate(10, 20))
-			if err := p.Close(); err != nil {
-				panic(err)
-			}
-			d, err := pdfread.Parse(buf.Bytes())
-			if err != nil {
-				panic(err)
-			}
-			fmt.Println("=====", fn, "subset", subset, len(buf.Bytes()))
-			pages, _ := d.Pages()
-			for _, pg := range pages {
-				fmt.Printf("content: %s\n", pg.Content)
-				if len(os.Args) > 3 {
-					continue
-				}
-				fonts := d.ResourceCategory(pg.Resources, "Font")
-				for name, v := range fonts {
-					fd, _ := d.Dict(v)
-					fmt.Println(name, pdfread.Fmt(fd))
-					desc := d.Resolve(fd["DescendantFonts"]).(pdfread.Array)
-					cid, _ := d.Dict(desc[0])
-					fdesc, _ := d.Dict(cid["FontDescriptor"])
-					if m, ok := cid["CIDToGIDMap"]; ok {
-						if st, ok := d.Resolve(m).(*pdfread.Stream); ok {
-							mb, _ := st.Decode()
-							fmt.Printf("CIDToGIDMap: % x\n", mb)
-						}
-					}
-					tu := d.Resolve(fd["ToUnicode"]).(*pdfread.Stream)
-					tb, _ := tu.Decode()
-					fmt.Printf("ToUnicode:\n%s\n", tb)
-					for _, k := range []pdfread.Name{"FontFile2", "FontFile3"} {
-						if st, ok := d.Resolve(fdesc[k]).(*pdfread.Stream); ok {
-							fb, err := st.Decode()
-							fmt.Println(k, len(fb), err)
-							sf, err := sfnt.Parse(fb)
-							if err != nil {
-								fmt.Println("sfnt.Parse ERROR:", err)
-								continue
-							}
-							fmt.Println("sfnt numGlyphs", sf.NumGlyphs(), "upem", sf.UnitsPerEm())
-							var sb sfnt.Buffer
-							for g := 0; g < sf.NumGlyphs() && g < 8; g++ {
-								segs, err := sf.LoadGlyph(&sb, sfnt.GlyphIndex(g), 0x7fffffff&(1<<20), nil)
-								fmt.Println("  glyph", g, len(segs), err)
-							}
-						}
-					}
+	tier := "quick"
+	only := ""
+	per := 2
+	if len(os.Args) > 1 {
+		only = os.Args[1]
+	}
+	if len(os.Args) > 2 {
+		per, _ = strconv.Atoi(os.Args[2])
+	}
+	stride := int64(1)
+	if len(os.Args) > 3 {
+		s, _ := strconv.Atoi(os.Args[3])
+		stride = int64(s)
+	}
+	seen := map[string]int{}
+	total := map[string]int{}
+	for _, fam := range c18.Prop().Families(tier) {
+		if only != "" && !strings.Contains(fam.Name, only) {
+			continue
+		}
+		start := time.Now()
+		for i := int64(0); i < fam.N; i += stride {
+			r := fw.NewR("C18")
+			fam.Check(i, r)
+			for _, v := range r.Violations {
+				total[v.Class]++
+				if seen[v.Class] < per {
+					seen[v.Class]++
+					fmt.Printf("===== %s\n  family %s #%d\n  CASE %s\n  DETAIL %s\n\n", v.Class, fam.Name, i, fam.Desc(i), v.Detail)
 				}
 			}
 		}
+		fmt.Fprintf(os.Stderr, "%s: %d cases in %v\n", fam.Name, fam.N/stride, time.Since(start))
+	}
+	for c, n := range total {
+		fmt.Printf("TOTAL %6d %s\n", n, c)
 	}
 }
